@@ -140,7 +140,12 @@ func lengths() []int {
 	for i := 0; i <= 300; i++ {
 		l = append(l, i)
 	}
-	return append(l, 16383, 16384, 20000)
+	// every multiple of 4096 up to 128 KiB and its neighbours (data read or
+	// built in blocks ends exactly on a block border)
+	for k := 1; k <= 32; k++ {
+		l = append(l, 4096*k-1, 4096*k, 4096*k+1)
+	}
+	return append(l, 16383, 20000)
 }
 
 func texts(part, parts int) {
